@@ -44,6 +44,8 @@ CLAIMED = {
          "Lean invariant over timer model + source-regenerated constants + real-time validation", "5 C08"),
  "C09": ("proof", "Lean: timeout N + max(N/20,1) (formula text tied to source); no expiry while inbound gaps <= N (C09_live); expiry within T'+P of silence; session model: first expiry => one TestRequest and probing state, expiry while probing => disconnect event + context cancelled + handler stopped, any inbound message while probing cancels it. Real-time scenarios at N = 1 s validate the timing.",
          "Lean theorems over timer + session model + source-regenerated formula + real-time scenarios", "5 C09"),
+ "C12": ("proof", "Lean: in the abstract generator every accessor i reads/writes constructor slot i of its own member (excluded framing fields skipped), constructor items are keyed by the member's own Field constant, arguments are exactly the required members in order, Go types follow the type mapping, constants equal the schema's numbers / message types, duplicates are rejected. The real generator's emitted files are abstracted with go/parser and compared with the model on the shipped schemas and seeded mutations; compile, determinism, directory-independence and reference-package oracles. Known finding: one Go type per group name.",
+         "Lean theorems over abstract generator + declaration-level correspondence with the real generator + compile/determinism/reference oracles", "5 C12"),
 }
 NOT_YET = {}
 
